@@ -72,6 +72,12 @@ Record cfg := {
   c_net : bytes;                                      (* e.ledger().network_id() *)
   c_xdr : addr -> bytes;                              (* Address::to_xdr *)
   c_sigok : Z -> bytes -> bytes -> bytes -> Z -> bool;  (* scheme, public key, message, signature, recovery id *)
+  c_other : addr -> addr -> Z -> Z -> bytes -> bytes -> bool;
+    (* the answer of `is_claim_valid(identity, topic, scheme, sig_data, claim_data)` at an address that is
+       NOT a reference issuer (issuer, identity, topic, scheme, signature data, claim data): true iff the
+       cross-contract call returns normally WITH THE UNIT VALUE.  A trap, a missing function, a
+       non-contract address and a normal return of any other value (a bool, an error code, ...) are
+       all `false`: only the unit answer is a confirmation (ClaimIssuer::is_claim_valid has no result) *)
   c_max_topics : Z;                                   (* MAX_CLAIM_TOPICS *)
   c_max_issuers : Z;                                  (* MAX_ISSUERS *)
   c_max_keys : Z;                                     (* MAX_KEYS_PER_TOPIC *)
